@@ -50,7 +50,7 @@ class Chooser(object):
         pts = self.points if upto is None else self.points[:upto]
         for (kind, _n, costs), c in zip(pts, self.choices):
             if c:
-                acc[kind] = acc.get(kind, 0) + (costs[c] if costs else 1)
+                acc[kind] = acc.get(kind, 0) + (1 if costs is None else (costs if isinstance(costs, int) else costs[c]))
         return acc
 
     def trace(self):
